@@ -156,7 +156,7 @@ RTB_OPTIONS = dict(
     offset=[False, True],
     update_bounds=[True, False],
     prior=[None, "uniform"],
-    post_rescaling=[None, "logit"],
+    post_rescaling=[None, "logit", "exp"],
 )
 
 
